@@ -1,6 +1,7 @@
 \* all six steady networks, label counts 1..2, ALL maps with max(S,P) <= 3, rotating distributions
 CONSTANTS
     Tpls = {"chain", "cycle", "bi", "split", "homo", "tri"}
+    Ords = {"std"}
     MaxNL = 2
     MaxL = 3
     Focus = TRUE
@@ -17,6 +18,7 @@ INVARIANT ThLinIsIso
 INVARIANT ThUniform
 INVARIANT ThZero
 INVARIANT ThInvol
+INVARIANT ThParam
 INVARIANT ThSafe
 INVARIANT Emit
 CHECK_DEADLOCK FALSE
